@@ -31,6 +31,9 @@ def run(ctx, rep):
              floor=1)
     from .c09 import check_single_is_sequence_of_one
     check_single_is_sequence_of_one(ctx, rep, "A6", E + "loss_minimization_estimator.LossMinimizationEstimator")
+    rep.rule("A7", "CVXPY conversions: a variable vector reshaped into a row-structured (non-square, more than one row) matrix - one row "
+                   "per outcome - is reshaped row-major (order='C'); cvxpy.reshape defaults to column-major, numpy to row-major", floor=1)
+    _a7(ctx, rep)
     _a1(ctx, rep)
     _a2(ctx, rep)
     _a5(ctx, rep)
@@ -407,3 +410,40 @@ def _a5(ctx, rep):
                             rep.info("A5", g, "error value of mode 'sum_absolute_difference_projected_gradient'",
                                      "%s measures ||x_next|| (the iterate), which does not tend to 0; C11 quantifies over the backtracking "
                                      "algorithm only, so this is reported as information" % name, node=st)
+
+
+
+# ------------------------------------------------------------------------------ A7
+def _a7(ctx, rep):
+    mod = ctx.ix.modules.get("quara.interface.cvxpy.conversion")
+    if mod is None:
+        rep.undecided("A7", "quara.interface.cvxpy.conversion", "module", "module not found")
+        return
+    n_sens = 0
+    for f in mod.funcs.values():
+        for n in own_nodes(f.node):
+            if not (isinstance(n, ast.Call) and (dotted(n.func) or "") in ("cp.reshape", "cvxpy.reshape") and len(n.args) >= 2):
+                continue
+            shp = n.args[1]
+            order = kwarg(n, "order") or (n.args[2] if len(n.args) > 2 else None)
+            con = "%s: %s" % (f.name, unparse(n)[:90])
+            if not (isinstance(shp, ast.Tuple) and len(shp.elts) == 2):
+                rep.info("A7", f, con, "target shape is not a 2-tuple")
+                continue
+            a, b = shp.elts
+            if unparse(a) == unparse(b):
+                rep.info("A7", f, con, "square target: the two orders differ by a transpose, which Hermitian / PSD constraints do not see")
+                continue
+            if any(is_num(x, 1) or is_num(x, -1) for x in (a, b)):
+                rep.info("A7", f, con, "single row / column: order-insensitive")
+                continue
+            n_sens += 1
+            if order is None:
+                rep.violation("A7", f, con, "row-structured reshape without order='C': cvxpy fills the matrix column by column, so the rows are not the "
+                              "per-outcome blocks of the variable vector (with exactly two rows... only a single-row reshape would be unaffected)", node=n)
+            elif const(order) == "C":
+                rep.holds("A7", f, con, "row-major", node=n)
+            else:
+                rep.violation("A7", f, con, "reshape order is %s; the variable vector is laid out row-major (one block per outcome)" % unparse(order), node=n)
+    if n_sens == 0:
+        rep.undecided("A7", "quara.interface.cvxpy.conversion", "row-structured reshapes", "none found")
